@@ -38,6 +38,10 @@ type Context struct {
 	// The array filters used to resolve positional operators in top level
 	// operator invocation paths.
 	TopLevelArrayFilters bsonkit.List
+
+	// The document used to resolve positional operators in top level operator
+	// invocation paths. If absent, the processed document is used.
+	TopLevelResolveDoc bsonkit.Doc
 }
 
 // Process will process a document with a query using the MongoDB operator
@@ -88,9 +92,15 @@ func ProcessExpression(ctx Context, doc bsonkit.Doc, prefix string, pair bson.E,
 			return fmt.Errorf("%s: expected document", pair.Key)
 		}
 
+		// get document used to resolve paths
+		source := doc
+		if ctx.TopLevelResolveDoc != nil {
+			source = ctx.TopLevelResolveDoc
+		}
+
 		// call operator for each pair
 		for _, cond := range update {
-			err := Resolve(cond.Key, ctx.TopLevelQuery, doc, ctx.TopLevelArrayFilters, func(path string) error {
+			err := Resolve(cond.Key, ctx.TopLevelQuery, source, ctx.TopLevelArrayFilters, func(path string) error {
 				return operator(ctx, doc, pair.Key, path, cond.Value)
 			})
 			if err != nil {
